@@ -4,6 +4,10 @@ props = {json.loads(l)['id']: json.loads(l) for l in open('/verif/properties.jso
 # derived from mkprompts.py   (worktrees /tmp/wt<round>/<id>, outputs /tmp/seeded_out<round>/<id>, prompts /tmp/prompts<round>)
 # The prompt carries the property text and, as "already taken", the one-paragraph summaries that earlier sub-agents
 # wrote for their own changes (seeded/<id>_<n>/meta.json) - nothing about the checkers.
+STYLES = {
+    "1": "YOUR TASK: produce ONE realistic BEHAVIOUR-PRESERVING refactoring of the library source under {wt}/ufl/ in the code this property is about - the kind of clean-up a maintainer would merge: rename local variables and private helpers, extract or inline helper functions, turn loops into comprehensions (or back), reorder independent statements, replace an idiom by an equivalent one (dict.get vs try/except KeyError, zip vs index loops, early returns vs nested ifs, tuple vs list intermediates), split a long function, move a constant, add or reword comments and docstrings, add a *correct* fast path or a *correctly keyed* cache.",
+    "2": "YOUR TASK: produce ONE realistic BEHAVIOUR-PRESERVING *structural* refactoring of the library source under {wt}/ufl/ in the code this property is about - deeper than renaming locals: rename PRIVATE attributes, private methods and private module-level names (everything starting with an underscore that is not part of the documented API; update every use in the package), change internal data structures (list <-> tuple <-> deque, dict <-> defaultdict, a pair of parallel lists <-> a list of pairs, a class-level dict cache <-> an equivalent correctly keyed cache elsewhere), move a private helper to another module of the package (importing it where it is used), merge two near-identical handlers into one shared implementation or split one handler into two, replace an explicit stack loop by an equivalent formulation, introduce a small private helper class or dataclass for a tuple that is passed around, add a *correct* memo (keyed by everything the value depends on, owned by the right object) or remove a redundant one.",
+}
 rnd = sys.argv[1]
 ids = sys.argv[2:]
 import glob
@@ -22,6 +26,7 @@ for pid in ids:
     os.makedirs(out, exist_ok=True)
     taken = TAKEN.get(pid, "(none)")
     anchors = json.dumps(p.get("anchors"), indent=1).replace("/repo/", wt + "/")
+    style = STYLES.get(rnd, STYLES["1"]).replace("{wt}", wt)
     txt = f"""You are helping evaluate how robust a verification effort is against FALSE ALARMS. You are given ONE behavioural property of the FEniCS/ufl Python library (UFL, the Unified Form Language) and your own scratch git worktree of the library at {wt} (a checkout of the current HEAD). Work ONLY inside {wt} and write your outputs to {out}. Do not look at or touch /repo or /verif, and do not read anything outside {wt} except the Python standard library / installed packages.
 
 PROPERTY {pid}: {p['title']}
@@ -29,7 +34,7 @@ Statement: {p['statement']}
 Quantifier: {p['quantifier']['text']}
 Code anchors (where the behaviour lives): {anchors}
 
-YOUR TASK: produce ONE realistic BEHAVIOUR-PRESERVING refactoring of the library source under {wt}/ufl/ in the code this property is about - the kind of clean-up a maintainer would merge: rename local variables and private helpers, extract or inline helper functions, turn loops into comprehensions (or back), reorder independent statements, replace an idiom by an equivalent one (dict.get vs try/except KeyError, zip vs index loops, early returns vs nested ifs, tuple vs list intermediates), split a long function, move a constant, add or reword comments and docstrings, add a *correct* fast path or a *correctly keyed* cache. Touch 20-80 lines, preferably in the functions named in the anchors and their direct helpers. The observable behaviour of the public API must be EXACTLY the same for every input (same results, same exceptions for invalid input, same object sharing where it is observable); do not change public names or signatures.
+{style} Touch 20-80 lines, preferably in the functions named in the anchors and their direct helpers. The observable behaviour of the public API must be EXACTLY the same for every input (same results, same exceptions for invalid input, same object sharing where it is observable); do not change public names or signatures.
   (a) the package still imports and the WHOLE existing test-suite still passes unchanged:  cd {wt} && PYTHONPATH={wt} /venv/bin/python -m pytest -q -p no:cacheprovider -n 8   (977 tests; you must run this with your change applied and see it pass - do not edit anything under test/ or demo/);
   (b) it is a real restructuring of the logic's text (not only comments/whitespace), touching only files under ufl/.
 
